@@ -182,24 +182,42 @@ func VerifDump(db *DB) *VerifState {
 		st.Snapshots = append(st.Snapshots, e.Value.(*snapshotElement).seq)
 	}
 	db.snapsMu.Unlock()
-	em, fm := db.getMems()
-	db.memMu.RLock()
-	st.FrozenSeq = db.frozenSeq
-	st.JournalNum = db.journalFd.Num
-	st.FrozenJournal = db.frozenJournalFd.Num
-	db.memMu.RUnlock()
-	if em != nil {
-		st.Mem = verifMemEntries(em.DB)
-		em.decref()
+	// Buffers first, version second, as readers do; retried until no
+	// rotation or frozen drop happened in between, so that the buffers and
+	// the version describe one state (a flush and a table compaction may
+	// complete between the two reads otherwise).
+	for try := 0; ; try++ {
+		em, fm := db.getMems()
+		db.memMu.RLock()
+		st.FrozenSeq = db.frozenSeq
+		st.JournalNum = db.journalFd.Num
+		st.FrozenJournal = db.frozenJournalFd.Num
+		db.memMu.RUnlock()
+		v := db.s.version()
+		db.memMu.RLock()
+		same := db.mem == em && db.frozenMem == fm
+		db.memMu.RUnlock()
+		if same || try >= 100 {
+			if em != nil {
+				st.Mem = verifMemEntries(em.DB)
+			}
+			if fm != nil {
+				st.HasFrozen = true
+				st.Frozen = verifMemEntries(fm.DB)
+			}
+			st.Version = verifVersion(v)
+		}
+		if em != nil {
+			em.decref()
+		}
+		if fm != nil {
+			fm.decref()
+		}
+		v.release()
+		if st.Version != nil {
+			break
+		}
 	}
-	if fm != nil {
-		st.HasFrozen = true
-		st.Frozen = verifMemEntries(fm.DB)
-		fm.decref()
-	}
-	v := db.s.version()
-	st.Version = verifVersion(v)
-	v.release()
 	st.StSeqNum = db.s.stSeqNum
 	st.StJournalNum = db.s.stJournalNum
 	st.ManifestNum = db.s.manifestFd.Num
